@@ -8,10 +8,19 @@ namespace MayVerif.Time.TT
 local notation "Tid" => Nat
 local notation "Lid" => Nat
 
-@[grind] def isTimer : Pc → Bool | .rPop | .rStore | .rCheck | .rTake | .rUnpark | .rSched | .rPark _ => true | _ => false
-@[grind] def reg : Pc → Bool | .rCheck | .rTake | .rUnpark | .rSched | .rPark _ => true | _ => false
-@[grind] def afterCheck : Pc → Bool | .rSched | .rPark _ => true | _ => false
-@[grind] def parked : Pc → Bool | .rPark _ => true | _ => false
+@[grind] def isTimer : Pc → Bool
+  | .idle => false | .rPop => true | .rStore => true | .rCheck => true | .rTake => true | .rUnpark => true
+  | .rSched _ => true | .rPark _ => true | .rDone => true | .aAdd => false | .dPush => false | .aTake => false | .aUnpark => false
+@[grind] def reg : Pc → Bool
+  | .idle => false | .rPop => false | .rStore => false | .rCheck => true | .rTake => true | .rUnpark => true
+  | .rSched _ => true | .rPark _ => true | .rDone => false | .aAdd => false | .dPush => false | .aTake => false | .aUnpark => false
+@[grind] def afterCheck : Pc → Bool
+  | .idle => false | .rPop => false | .rStore => false | .rCheck => false | .rTake => false | .rUnpark => false
+  | .rSched _ => true | .rPark _ => true | .rDone => false | .aAdd => false | .dPush => false | .aTake => false | .aUnpark => false
+/-- after a look at the heap: installs from now on are unseen -/
+@[grind] def parked : Pc → Bool
+  | .idle => false | .rPop => false | .rStore => false | .rCheck => false | .rTake => false | .rUnpark => false
+  | .rSched p => p | .rPark _ => true | .rDone => false | .aAdd => false | .dPush => false | .aTake => false | .aUnpark => false
 
 structure Inv (s : St) : Prop where
   r0 : isTimer (s.pcs 0) = true
@@ -45,12 +54,14 @@ theorem inv_step (s s' : St) (t : Tid) (e : Env) (h : Inv s) (hs : step s t e = 
   · subst ht0
     rw [hpc] at h0 hj1 hj2 hj3 hj4
     cases pc <;> simp only [isTimer, reduceCtorEq] at h0 <;> simp only [tstep] at hts <;>
+      (try (cases e <;> simp only [] at hts)) <;>
       (try split at hts) <;> (try split at hts) <;> (try split at hts) <;>
       (try simp only [Option.some.injEq, Prod.mk.injEq, reduceCtorEq] at hts) <;> (try contradiction) <;>
       (obtain ⟨rfl, rfl⟩ := hts) <;>
       (constructor <;> simp only [] <;> grind)
   · have hnt : isTimer pc = false := by rw [← hpc]; exact h1 t ht0
     cases pc <;> simp only [isTimer, reduceCtorEq] at hnt <;> simp only [tstep] at hts <;>
+      (try (cases e <;> simp only [] at hts)) <;>
       (try split at hts) <;> (try split at hts) <;>
       (try simp only [Option.some.injEq, Prod.mk.injEq, reduceCtorEq] at hts) <;> (try contradiction) <;>
       (obtain ⟨rfl, rfl⟩ := hts) <;>
